@@ -5,9 +5,201 @@ From IBL.C18 Require Import Model.
 Import ListNotations.
 Open Scope Z_scope.
 
+(* ------------------------------------------------------------------ *)
 (* dft: number of coefficients for real input = length of the half spectrum *)
 Lemma dft_nk_real ns : 0 <= ns -> dft_nk ns false = ns / 2 + 1.
 Proof.
   intros H. unfold dft_nk. apply cdiv_unique; [lia|].
   pose proof (Z.div_mod ns 2 ltac:(lia)). pose proof (Z.mod_pos_bound ns 2 ltac:(lia)). lia.
+Qed.
+
+(* ------------------------------------------------------------------ *)
+(* ns_optim *)
+Definition B_limit : Z := 14155776.      (* largest table entry below 3^15 *)
+
+Fixpoint ssorted (l : list Z) : bool :=
+  match l with [] => true | y :: t => forallb (fun x => y <? x) t && ssorted t end.
+
+Lemma filter_nil_above (t : list Z) y v :
+  (forall x, In x t -> y < x) -> v <= y -> filter (fun x => x <? v) t = [].
+Proof.
+  intros H Hv. induction t as [|z t IH]; [reflexivity|].
+  cbn [filter]. pose proof (H z (or_introl eq_refl)).
+  destruct (z <? v) eqn:E; [lia|]. apply IH. intros x Hx. apply H. now right.
+Qed.
+
+Lemma search_spec l : ssorted l = true -> forall v m,
+  nth_error l (searchsorted_left l v) = Some m ->
+  v <= m /\ In m l /\ forall x, In x l -> v <= x -> m <= x.
+Proof.
+  induction l as [|y t IH]; intros Hs v m H.
+  - discriminate.
+  - cbn [ssorted] in Hs. apply andb_true_iff in Hs as [Hy Ht].
+    rewrite forallb_forall in Hy.
+    unfold searchsorted_left in *. cbn [filter] in H.
+    destruct (y <? v) eqn:E.
+    + cbn [length nth_error] in H. destruct (IH Ht v m H) as (H1 & H2 & H3).
+      split; [exact H1|]. split; [now right|].
+      intros x [<-|Hx] Hv; [lia|]. now apply H3.
+    + assert (Hnil : filter (fun x => x <? v) t = []).
+      { apply filter_nil_above with (y := y); [|lia]. intros x Hx. specialize (Hy x Hx). lia. }
+      rewrite Hnil in H. cbn in H. injection H as <-.
+      split; [lia|]. split; [now left|].
+      intros x [<-|Hx] Hv; [lia|]. specialize (Hy x Hx). lia.
+Qed.
+
+Lemma filter_len_le {A} (f : A -> bool) l : (length (filter f l) <= length l)%nat.
+Proof. induction l as [|a l IH]; cbn [filter length]; [lia|]. destruct (f a); cbn [length]; lia. Qed.
+
+Lemma search_total l v b : In b l -> v <= b ->
+  exists m, nth_error l (searchsorted_left l v) = Some m.
+Proof.
+  intros Hb Hv.
+  assert (Hlt : (searchsorted_left l v < length l)%nat).
+  { unfold searchsorted_left. induction l as [|y t IH]; [destruct Hb|].
+    cbn [filter]. destruct Hb as [->|Hb].
+    - destruct (b <? v) eqn:E; [lia|]. cbn [length].
+      pose proof (filter_len_le (fun x => x <? v) t). lia.
+    - specialize (IH Hb). destruct (y <? v); cbn [length]; lia. }
+  destruct (nth_error l (searchsorted_left l v)) eqn:E; [eauto|].
+  apply nth_error_None in E. lia.
+Qed.
+
+Lemma table_sorted : ssorted sz_table = true.
+Proof. vm_compute. reflexivity. Qed.
+
+Lemma table_sub_pow :
+  forallb (fun x => existsb (fun p => x =? p) pow_table) sz_table = true.
+Proof. vm_compute. reflexivity. Qed.
+
+Lemma pow_sub_table :
+  forallb (fun p => existsb (fun x => x =? p) sz_table) pow_table = true.
+Proof. vm_compute. reflexivity. Qed.
+
+Lemma B_in_table : existsb (fun x => x =? B_limit) sz_table = true.
+Proof. vm_compute. reflexivity. Qed.
+
+Lemma in_pow_table x :
+  In x pow_table <-> exists a b, 0 <= a < 25 /\ 0 <= b < 15 /\ x = 2 ^ a * 3 ^ b.
+Proof.
+  unfold pow_table. rewrite in_flat_map. split.
+  - intros (b & Hb & Hx). apply in_map_iff in Hx as (a & <- & Ha).
+    apply in_zrange in Hb, Ha. exists a, b. cbn in *. lia.
+  - intros (a & b & Ha & Hb & ->). exists b. split; [apply in_zrange; cbn; lia|].
+    apply in_map_iff. exists a. split; [reflexivity|apply in_zrange; cbn; lia].
+Qed.
+
+Lemma in_table x :
+  In x sz_table <-> exists a b, 0 <= a < 25 /\ 0 <= b < 15 /\ x = 2 ^ a * 3 ^ b.
+Proof.
+  rewrite <- in_pow_table. split; intros H.
+  - pose proof table_sub_pow as T. rewrite forallb_forall in T. specialize (T x H).
+    apply existsb_exists in T as (p & Hp & E). apply Z.eqb_eq in E. subst. exact Hp.
+  - pose proof pow_sub_table as T. rewrite forallb_forall in T. specialize (T x H).
+    apply existsb_exists in T as (p & Hp & E). apply Z.eqb_eq in E. subst. exact Hp.
+Qed.
+
+Lemma smooth_small a b : 0 <= a -> 0 <= b -> 2 ^ a * 3 ^ b < 3 ^ 15 -> a < 25 /\ b < 15.
+Proof.
+  intros Ha Hb H.
+  assert (H2 : 1 <= 2 ^ a) by (apply (Z.pow_le_mono_r 2 0 a); lia).
+  assert (H3 : 1 <= 3 ^ b) by (apply (Z.pow_le_mono_r 3 0 b); lia).
+  split.
+  - apply (Z.pow_lt_mono_r_iff 2); [lia|lia|].
+    assert (3 ^ 15 < 2 ^ 25) by (vm_compute; reflexivity). nia.
+  - apply (Z.pow_lt_mono_r_iff 3); [lia|lia|]. nia.
+Qed.
+
+Lemma ns_optim_smallest n : 1 <= n <= B_limit ->
+  exists m, ns_optim n = Some m /\ n <= m /\
+    (exists a b, 0 <= a /\ 0 <= b /\ m = 2 ^ a * 3 ^ b) /\
+    (forall a b, 0 <= a -> 0 <= b -> n <= 2 ^ a * 3 ^ b -> m <= 2 ^ a * 3 ^ b).
+Proof.
+  intros Hn.
+  assert (HB : In B_limit sz_table).
+  { pose proof B_in_table as T. apply existsb_exists in T as (x & Hx & E).
+    apply Z.eqb_eq in E. subst. exact Hx. }
+  destruct (search_total sz_table n B_limit HB ltac:(lia)) as [m Hm].
+  exists m. split; [exact Hm|].
+  destruct (search_spec sz_table table_sorted n m Hm) as (H1 & H2 & H3).
+  split; [exact H1|]. split.
+  - destruct (proj1 (in_table m) H2) as (a & b & Ha & Hb & E). exists a, b. lia.
+  - intros a b Ha Hb Hs.
+    pose proof (H3 B_limit HB ltac:(lia)) as HmB.
+    destruct (Z_lt_le_dec (2 ^ a * 3 ^ b) (3 ^ 15)) as [Hlt|Hge].
+    + destruct (smooth_small a b Ha Hb Hlt) as [Ha' Hb'].
+      apply H3; [|exact Hs]. apply (proj2 (in_table _)). exists a, b. lia.
+    + assert (B_limit < 3 ^ 15) by (vm_compute; reflexivity). lia.
+Qed.
+
+(* the bound is tight: just above it the table misses 3^15 *)
+Lemma ns_optim_bound_tight :
+  exists m, ns_optim (B_limit + 1) = Some m /\ 3 ^ 15 < m /\ B_limit + 1 <= 3 ^ 15.
+Proof. eexists. split; [vm_compute; reflexivity|]. split; vm_compute; congruence || reflexivity. Qed.
+
+Lemma ns_optim_ge n m : ns_optim n = Some m -> n <= m.
+Proof. intros H. exact (proj1 (search_spec sz_table table_sorted n m H)). Qed.
+
+Definition table_max : Z := 80244904034304.    (* 2^24 * 3^14 *)
+
+Lemma ns_optim_some n : n <= table_max -> exists m, ns_optim n = Some m /\ n <= m.
+Proof.
+  intros Hn.
+  assert (HB : In table_max sz_table).
+  { apply (proj2 (in_table _)). exists 24, 14. repeat split; try lia. vm_compute. reflexivity. }
+  destruct (search_total sz_table n table_max HB Hn) as [m Hm].
+  exists m. split; [exact Hm|]. now apply ns_optim_ge.
+Qed.
+
+(* ------------------------------------------------------------------ *)
+(* list helpers *)
+Lemma nth_firstn_lt {A} n : forall (l : list A) i d, (i < n)%nat -> nth i (firstn n l) d = nth i l d.
+Proof.
+  induction n as [|n IH]; intros l i d Hi; [lia|].
+  destruct l as [|a l]; [reflexivity|]. destruct i as [|i]; [reflexivity|].
+  cbn [firstn nth]. apply IH. lia.
+Qed.
+
+Lemma nth_skipn_add {A} s : forall (l : list A) i d, nth i (skipn s l) d = nth (s + i) l d.
+Proof.
+  induction s as [|s IH]; intros l i d; [reflexivity|].
+  destruct l as [|a l]; [destruct i; reflexivity|]. cbn [skipn Nat.add nth]. apply IH.
+Qed.
+
+(* same-mode crop arithmetic *)
+Lemma same_first_eq nsw : 1 <= nsw -> same_first nsw = (nsw - 1) / 2.
+Proof.
+  intros H. unfold same_first.
+  pose proof (Z.div_mod nsw 2 ltac:(lia)). pose proof (Z.mod_pos_bound nsw 2 ltac:(lia)).
+  pose proof (Z.div_mod (nsw + 1) 2 ltac:(lia)). pose proof (Z.mod_pos_bound (nsw + 1) 2 ltac:(lia)).
+  pose proof (Z.div_mod (nsw - 1) 2 ltac:(lia)). pose proof (Z.mod_pos_bound (nsw - 1) 2 ltac:(lia)).
+  lia.
+Qed.
+
+Lemma same_first_last nsw : 1 <= nsw -> same_first nsw + same_last nsw = nsw /\ 0 <= same_first nsw /\ 1 <= same_last nsw.
+Proof.
+  intros H. unfold same_first, same_last, cdiv.
+  pose proof (Z.div_mod nsw 2 ltac:(lia)). pose proof (Z.mod_pos_bound nsw 2 ltac:(lia)).
+  pose proof (Z.div_mod (nsw + 1) 2 ltac:(lia)). pose proof (Z.mod_pos_bound (nsw + 1) 2 ltac:(lia)).
+  pose proof (Z.div_mod (- nsw) 2 ltac:(lia)). pose proof (Z.mod_pos_bound (- nsw) 2 ltac:(lia)).
+  lia.
+Qed.
+
+(* xw[first:-last] on a list of length nsx + nsw is entries first .. first+nsx-1 *)
+Lemma same_crop {A} (xw : list A) (nsx nsw : nat) d :
+  (1 <= nsw)%nat -> length xw = (nsx + nsw)%nat ->
+  let s := pyslice xw (same_first (Z.of_nat nsw)) (- same_last (Z.of_nat nsw)) in
+  length s = nsx /\
+  forall i, (i < nsx)%nat -> nth i s d = nth (i + Z.to_nat ((Z.of_nat nsw - 1) / 2)) xw d.
+Proof.
+  intros Hw Hlen s. subst s. unfold pyslice, norm_idx. rewrite Hlen.
+  destruct (same_first_last (Z.of_nat nsw) ltac:(lia)) as (Hsum & Hf & Hl).
+  rewrite <- same_first_eq by lia.
+  set (f := same_first (Z.of_nat nsw)) in *. set (la := same_last (Z.of_nat nsw)) in *.
+  destruct (f <? 0) eqn:E1; [lia|]. destruct (- la <? 0) eqn:E2; [|lia].
+  replace (Z.max (- la + Z.of_nat (nsx + nsw)) 0 - Z.min f (Z.of_nat (nsx + nsw))) with (Z.of_nat nsx) by lia.
+  replace (Z.min f (Z.of_nat (nsx + nsw))) with f by lia.
+  rewrite Nat2Z.id. split.
+  - rewrite firstn_length, skipn_length, Hlen. lia.
+  - intros i Hi. rewrite nth_firstn_lt by exact Hi. rewrite nth_skipn_add. f_equal. lia.
 Qed.
